@@ -571,6 +571,49 @@ fn corpus_cases() -> Vec<Case> {
         }
         v.push(b.finish(id, "Fc", (k, k), listed, names, body));
     }
+    {
+        // ports of every mode are read signals (seeded change C20-m8: out ports dropped):
+        //   ob0 <= q0 ; ob1 <= io0 ; ob2 <= bf0 ; ob0 <= p0 ;   list ( b1 , q1 )
+        let mut b = B::new();
+        let (kw, listed, names) = b.header(&["b1", "q1"]);
+        let body = vec![b.assign("ob0", "q0"), b.assign("ob1", "io0"), b.assign("ob2", "bf0"), b.assign("ob0", "p0")];
+        v.push(b.finish("corpus.P1", "Fc", kw, listed, names, body));
+    }
+    {
+        // out ports as prefix of an indexed name, in a condition and as call argument; listed out port read / not read
+        //   if q2 = 1 then ob1 <= q1 ( i0 ) ; end if ; pb ( q0 , b0 , b0 , b0 ) ;   list ( q0 , qa0 )
+        let mut b = B::new();
+        let (kw, listed, names) = b.header(&["q0", "qa0"]);
+        b.g.em.nl(4);
+        b.g.em.tok("if");
+        let c = b.cmp("q2", "1");
+        b.g.em.tok("then");
+        b.g.em.nl(4);
+        let t = b.tgt("ob1");
+        b.g.em.tok("<=");
+        let r = b.sig("q1");
+        b.g.em.tok("(");
+        let i = b.sig("i0");
+        let bb = b.g.em.tok(")");
+        b.g.em.tok(";");
+        let s1 = S::SigAssign(t, Rhs::Simple(Some(vec![(E::Call((r.sp().0, bb), Box::new(r), vec![i]), None)])));
+        b.g.em.nl(4);
+        b.g.em.toks("end if ;");
+        b.g.em.nl(4);
+        let p = b.g.name("pb", ID_PB);
+        b.g.em.tok("(");
+        let mut args = Vec::new();
+        for (k, n) in ["q0", "b0", "b0", "b0"].iter().enumerate() {
+            if k > 0 {
+                b.g.em.tok(",");
+            }
+            args.push(('i', None, b.sig(n)));
+        }
+        let e = b.g.em.tok(")");
+        b.g.em.tok(";");
+        let body = vec![S::If(vec![(c, vec![s1])], Vec::new()), S::Call((p.sp().0, e), p, args)];
+        v.push(b.finish("corpus.P2", "Fc", kw, listed, names, body));
+    }
     // clocked shapes: the edge test in every operand position `is_likely_clocked` descends into
     v.push(B::clocked_case("corpus.K1", false, &|b| {
         // clk = '1' and clk ' event
